@@ -197,3 +197,5 @@ func hExecPerm(m *MemDb, parts ...[]byte) rv {
 	vfOpt("maporder", 0)
 	return r
 }
+
+func hCtx() context.Context { return context.Background() }
